@@ -22,10 +22,13 @@ package data
 //@ ensures message-or-error: (err == nil ==> result != nil) && (err != nil ==> result == nil)
 //@ func data.DecodeUnixFSData$1
 //@ may_panic
+//@ at return assert a-decoding-failure-never-returns-normally: err == nil
 //@ func data.DecodeUnixTime$1
 //@ may_panic
+//@ at return assert a-decoding-failure-never-returns-normally: err == nil
 //@ func data.DecodeUnixFSMetadata$1
 //@ may_panic
+//@ at return assert a-decoding-failure-never-returns-normally: err == nil
 //@ func data.consumeUnixFSData$1
 //@ may_panic
 //@ func data.consumeUnixFSData$2
@@ -42,14 +45,14 @@ package data
 // varint/length: n < 0; wrong wire type for the field) or in the two documented semantic checks
 // (block sizes given twice, field 4; mode range, field 7) -- in particular never because of the
 // VALUE of the type, size, hash or fanout fields (an unknown type is reported by reification).
-//@ at call github.com/ipld/go-ipld-prime/fluent/qp.MapEntry#1 assert wire-number-1-is-DataType: fieldNum == 1 && callee_k == "DataType"
-//@ at call github.com/ipld/go-ipld-prime/fluent/qp.MapEntry#2 assert wire-number-2-is-Data: fieldNum == 2 && callee_k == "Data"
-//@ at call github.com/ipld/go-ipld-prime/fluent/qp.MapEntry#3 assert wire-number-3-is-FileSize: fieldNum == 3 && callee_k == "FileSize"
+//@ at call github.com/ipld/go-ipld-prime/fluent/qp.MapEntry#1 assert wire-number-1-is-DataType: fieldNum == 1 && callee_k == "DataType" && wireType == 0
+//@ at call github.com/ipld/go-ipld-prime/fluent/qp.MapEntry#2 assert wire-number-2-is-Data: fieldNum == 2 && callee_k == "Data" && wireType == 2
+//@ at call github.com/ipld/go-ipld-prime/fluent/qp.MapEntry#3 assert wire-number-3-is-FileSize: fieldNum == 3 && callee_k == "FileSize" && wireType == 0
 //@ at call github.com/ipld/go-ipld-prime/fluent/qp.MapEntry#4 assert wire-number-4-is-BlockSizes: fieldNum == 4 && callee_k == "BlockSizes"
-//@ at call github.com/ipld/go-ipld-prime/fluent/qp.MapEntry#5 assert wire-number-5-is-HashType: fieldNum == 5 && callee_k == "HashType"
-//@ at call github.com/ipld/go-ipld-prime/fluent/qp.MapEntry#6 assert wire-number-6-is-Fanout: fieldNum == 6 && callee_k == "Fanout"
-//@ at call github.com/ipld/go-ipld-prime/fluent/qp.MapEntry#7 assert wire-number-7-is-Mode: fieldNum == 7 && callee_k == "Mode"
-//@ at call github.com/ipld/go-ipld-prime/fluent/qp.MapEntry#8 assert wire-number-8-is-Mtime: fieldNum == 8 && callee_k == "Mtime"
+//@ at call github.com/ipld/go-ipld-prime/fluent/qp.MapEntry#5 assert wire-number-5-is-HashType: fieldNum == 5 && callee_k == "HashType" && wireType == 0
+//@ at call github.com/ipld/go-ipld-prime/fluent/qp.MapEntry#6 assert wire-number-6-is-Fanout: fieldNum == 6 && callee_k == "Fanout" && wireType == 0
+//@ at call github.com/ipld/go-ipld-prime/fluent/qp.MapEntry#7 assert wire-number-7-is-Mode: fieldNum == 7 && callee_k == "Mode" && wireType == 0
+//@ at call github.com/ipld/go-ipld-prime/fluent/qp.MapEntry#8 assert wire-number-8-is-Mtime: fieldNum == 8 && callee_k == "Mtime" && wireType == 2
 //@ at call github.com/ipld/go-ipld-prime/fluent/qp.Int#1 assert dataType-is-the-varint-read: callee_i == int64(dataType)
 //@ at call github.com/ipld/go-ipld-prime/fluent/qp.Int#2 assert fileSize-is-the-varint-read: callee_i == int64(fileSize)
 //@ at call github.com/ipld/go-ipld-prime/fluent/qp.Int#3 assert blockSize-is-the-varint-read: callee_i == int64(blockSize)
@@ -63,15 +66,15 @@ package data
 //@ loop 0 decreases len(remaining)
 //@ forbids errors.New fmt.Errorf
 //@ at return assert a-field-is-rejected-only-for-a-wire-level-reason: err != nil ==> n < 0 || (fieldNum == 1 && wireType != 0) || (fieldNum == 2 && wireType != 5)
-//@ at call github.com/ipld/go-ipld-prime/fluent/qp.MapEntry#1 assert wire-number-1-is-Seconds: fieldNum == 1 && callee_k == "Seconds"
-//@ at call github.com/ipld/go-ipld-prime/fluent/qp.MapEntry#2 assert wire-number-2-is-FractionalNanoseconds: fieldNum == 2 && callee_k == "FractionalNanoseconds"
+//@ at call github.com/ipld/go-ipld-prime/fluent/qp.MapEntry#1 assert wire-number-1-is-Seconds: fieldNum == 1 && callee_k == "Seconds" && wireType == 0
+//@ at call github.com/ipld/go-ipld-prime/fluent/qp.MapEntry#2 assert wire-number-2-is-FractionalNanoseconds: fieldNum == 2 && callee_k == "FractionalNanoseconds" && wireType == 5
 //@ at call github.com/ipld/go-ipld-prime/fluent/qp.Int#1 assert seconds-is-the-varint-read: callee_i == int64(seconds)
 //@ at call github.com/ipld/go-ipld-prime/fluent/qp.Int#2 assert nanoseconds-is-the-fixed32-read: callee_i == int64(fractionalNanoseconds) && 0 <= callee_i && callee_i <= 4294967295
 //@ func data.consumeUnixFSMetadata
 //@ loop 0 decreases len(remaining)
 //@ forbids errors.New fmt.Errorf
 //@ at return assert a-field-is-rejected-only-for-a-wire-level-reason: err != nil ==> n < 0 || (fieldNum == 1 && wireType != 2)
-//@ at call github.com/ipld/go-ipld-prime/fluent/qp.MapEntry#1 assert wire-number-1-is-MimeType: fieldNum == 1 && callee_k == "MimeType"
+//@ at call github.com/ipld/go-ipld-prime/fluent/qp.MapEntry#1 assert wire-number-1-is-MimeType: fieldNum == 1 && callee_k == "MimeType" && wireType == 2
 //@ func data.consumeBlockSizes
 //@ at return assert a-packed-size-is-rejected-only-when-its-varint-is-malformed: err != nil ==> n < 0
 //@ loop 0 invariant 0 <= i
@@ -119,4 +122,5 @@ package data
 
 //@ func data.AppendEncodeUnixFSMetadata
 //@ prop C09
+//@ ensures encoded-length: len(result) == len(enc) + ite(node.MimeType.m == 2, sizeTag(1) + sizeVarint(uint64(len(node.MimeType.v.x))) + len(node.MimeType.v.x), 0)
 //@ at call google.golang.org/protobuf/encoding/protowire.AppendTag#1 assert MimeType-is-wire-number-1: callee_num == 1 && callee_typ == 2 && node.MimeType.m == 2
